@@ -261,11 +261,8 @@ theorem renderFile_defines (f : ScFile) (h : definesUnsigned f = true) : unsigne
     subst h
     simp only [↓reduceIte]
     apply infix_mid
-    cases f.split with
-    | none => exact ⟨[], (as.flatMap renderAlias) ++ s%"}\n", by simp only [List.append_assoc, List.nil_append]⟩
-    | some sp =>
-      exact ⟨s%"package object " ++ sp.2 ++ s%" {\n\n", (as.flatMap renderAlias) ++ s%"}\n", by
-        simp only [List.append_assoc]⟩
+    exact ⟨s%"package object " ++ f.last ++ s%" {\n\n", (as.flatMap renderAlias) ++ s%"}\n", by
+      simp only [List.append_assoc]⟩
 
 /-! ## used ⇒ provided -/
 
